@@ -58,6 +58,10 @@ CLAIMED = {
          'value and decltype of unwrap(W(a) op W(b)) against a op b for every operator, nesting and rep width, also with a built-in operand on either side; compound assignment against T(x op y); ++/-- against +-1; scaled_integer kernels with different exponents (+ - & | ^, compound forms, comparisons) and the four documentation kernels against integer reference code; inputs for which the built-in expression is undefined are discarded on exact values',
          'equivalence by execution, not on compiled IR, and not all 2^64 pairs of 32-bit operands (stated in DESIGN section 6); ++/-- on rounding_integer<R, native_rounding_tag> nestings are ill-formed on the pinned tree and are excluded from those kernels',
          'DESIGN.md section 5 C12'),
+ 'C10': ('rapidcheck limb-structured and division-directed operands over 15 (quick) / 27 (thorough) wide_integer instantiations vs GMP reduced to the storage width',
+         'every listed operator, comparison, increment, conversion to/from built-in integers and floating point, decimal text and numeric_limits is compared with GMP arithmetic on the value read from the limb array, reduced to two\'s complement of the storage width; limb types of 8/16/32/64 bits and limb counts from 2 to 256 (incl. Karatsuba sizes) make results independent of the limb split',
+         'one listed known finding (Karatsuba multiply with a non-power-of-two limb count, vendored uintwide_t); operator~ of multi-word types is ill-formed on the pinned tree and excluded; to-float is checked as faithful rounding (the statement does not promise more); nondeterministic failures count when they reproduce at least once in three replays',
+         'DESIGN.md section 5 C10'),
 }
 
 def main():
